@@ -1,5 +1,7 @@
 import UsualProofs.C01.Steps
 /-! Preservation of the structural invariant: moves and allocations. -/
+set_option linter.unusedSimpArgs false
+set_option linter.unusedVariables false
 namespace Usual.C01
 
 /-- structural part of `move_child(t, tnew, told)` -/
@@ -51,5 +53,335 @@ theorem moveS_get {s : State} {t : Nat} {tb : Obj} (ht : s.get t = some tb) (tne
         · by_cases h3 : q = j
           · subst h3; simp [h1, Ne.symm h1, h2, Ne.symm h2]
           · simp [h1, Ne.symm h1, h2, Ne.symm h2, h3, Ne.symm h3]
+
+/-- a move to the parent the object already has: it goes to the end (front for a TRef) -/
+theorem moveS_same_get {s : State} {t : Nat} {tb : Obj} (ht : s.get t = some tb) (p : Nat) (front : Bool)
+    (hp : tb.parent = some p) (hself' : p ≠ t) (j : Nat) :
+    (moveS s t (some p) front).get j =
+      if j = t then some tb
+      else if p = j then (s.get j).map fun po =>
+        { po with children := if front then t :: po.children.erase t else po.children.erase t ++ [t] }
+      else s.get j := by
+  unfold moveS addChild
+  rw [detach_eq_some ht hp]
+  simp only [get_modify]
+  by_cases h1 : j = t
+  · subst h1; simp [hself', ht, hp]
+    cases tb; simp_all
+  · by_cases h2 : p = j
+    · subst h2; simp [h1, Ne.symm h1]; cases s.get p <;> simp
+    · simp [h1, Ne.symm h1, h2, Ne.symm h2]
+
+theorem nullCtx_moveS (s : State) (t : Nat) (tnew : Option Id) (front : Bool) :
+    (moveS s t tnew front).nullCtx = s.nullCtx := by
+  unfold moveS; simp
+
+theorem moveS_wf {s : State} {t : Nat} {tb : Obj} (w : WFp s) (ht : s.get t = some tb) (tnew : Option Id)
+    (hnp : tb.pending = false) (hk : tb.kind ≠ .limit)
+    (hne : tnew ≠ tb.parent) (hself : tnew ≠ some t) (hself' : tb.parent ≠ some t)
+    (hq : ∀ q, tnew = some q → ∃ qb, s.get q = some qb ∧ qb.kind = .plain)
+    (hnull : s.nullCtx ≠ some t) : WFp (moveS s t tnew (isRef tb)) := by
+  have ⟨h1, h2, h3, h4, h5, h6, h7, h8, h9, h10⟩ := w
+  have hg := moveS_get ht tnew (isRef tb) hne hself hself'
+  have hk' : ∀ a, isPlainAt (moveS s t tnew (isRef tb)) a ↔ isPlainAt s a := by
+    apply isPlainAt_of_kinds; intro j; rw [hg]
+    by_cases h : j = t
+    · subst h; simp [ht]
+    · simp only [h, if_false]; split
+      · cases s.get j <;> simp
+      · split <;> cases s.get j <;> simp
+  -- t is in no child list but its parent's
+  have hmem : ∀ (y : Nat) yo, s.get y = some yo → t ∈ yo.children → tb.parent = some y := by
+    intro y yo hy hm
+    obtain ⟨co, hco, hcp, -⟩ := h2 y yo t hy hm
+    rw [ht] at hco; cases hco; exact hcp
+  constructor
+  · intro y o p hy hpp; rw [hg] at hy; rw [hg]; grind
+  · intro y o c hy hc; rw [hg] at hy; rw [hg]; grind
+  · intro y o hy; rw [hg] at hy; grind
+  · intro y o r hy hc; rw [hg] at hy; rw [hg]; grind
+  · intro y o hy; rw [hg] at hy; grind
+  · intro y o r hy hc; rw [hg] at hy; rw [hg]; grind
+  · intro y o hy hc; rw [hg] at hy; grind [isRef]
+  · intro y o hy hc; rw [hg] at hy; grind
+  · intro y o hy
+    simp only [hk']
+    rw [hg] at hy
+    split at hy
+    · cases hy; exact h9 t tb ht
+    · split at hy
+      · cases h' : s.get y with
+        | none => rw [h'] at hy; cases hy
+        | some po => rw [h'] at hy; cases hy; exact (h9 y po h').sublist List.erase_sublist
+      · split at hy
+        · cases h' : s.get y with
+          | none => rw [h'] at hy; cases hy
+          | some po =>
+            rw [h'] at hy; cases hy
+            have hp9 := h9 y po h'
+            cases hir : isRef tb with
+            | true =>
+              simp only [if_true]
+              refine List.Pairwise.cons ?_ hp9
+              intro b _ ⟨ao, ha1, ha2⟩
+              rw [ht] at ha1; cases ha1
+              simp [isRef, ha2] at hir
+            | false =>
+              simp only [Bool.false_eq_true, if_false]
+              rw [List.pairwise_append]
+              refine ⟨hp9, List.pairwise_singleton _ _, ?_⟩
+              intro a _ b hb _
+              simp only [List.mem_singleton] at hb; subst hb
+              refine ⟨tb, ht, ?_⟩
+              cases hkk : tb.kind with
+              | plain => rfl
+              | limit => exact absurd hkk hk
+              | ref tt => simp [isRef, hkk] at hir
+        · exact h9 y o hy
+  · intro n hn
+    rw [nullCtx_moveS] at hn
+    obtain ⟨nb, hb1, hb2, hb3, hb4, hb5⟩ := h10 n hn
+    rw [hg]; grind
+
+
+theorem moveS_same_wf {s : State} {t : Nat} {tb : Obj} (w : WFp s) (ht : s.get t = some tb) (p : Nat)
+    (hp : tb.parent = some p) (hnp : tb.pending = false) (hk : tb.kind ≠ .limit) (hself' : p ≠ t) :
+    WFp (moveS s t (some p) (isRef tb)) := by
+  have ⟨h1, h2, h3, h4, h5, h6, h7, h8, h9, h10⟩ := w
+  have hg := moveS_same_get ht p (isRef tb) hp hself'
+  have hk' : ∀ a, isPlainAt (moveS s t (some p) (isRef tb)) a ↔ isPlainAt s a := by
+    apply isPlainAt_of_kinds; intro j; rw [hg]
+    by_cases h : j = t
+    · subst h; simp [ht]
+    · simp only [h, if_false]; split <;> cases s.get j <;> simp
+  obtain ⟨pb, hpb, hpk, hpm⟩ := h1 t tb p ht hp
+  have htm : t ∈ pb.children := by
+    rcases hpm with h | h
+    · exact h
+    · simp [hnp] at h
+  have hnd := h3 p pb hpb
+  have hmem : ∀ c, c ∈ pb.children.erase t ↔ c ≠ t ∧ c ∈ pb.children := fun c => hnd.mem_erase_iff
+  constructor
+  · intro y o q hy hpp
+    rw [hg] at hy; rw [hg]
+    by_cases e1 : y = t
+    · subst e1; simp only [if_true, Option.some.injEq] at hy; subst hy
+      rw [hp] at hpp; cases hpp
+      refine ⟨_, by simp [Ne.symm hself', hpb], hpk, ?_⟩
+      left; cases isRef o <;> simp
+    · simp only [e1, if_false] at hy
+      have hy0 : ∃ o0, s.get y = some o0 ∧ o0.parent = o.parent ∧ o0.pending = o.pending := by
+        split at hy
+        · obtain ⟨o0, h0, rfl⟩ := Option.map_eq_some_iff.1 hy; exact ⟨o0, h0, rfl, rfl⟩
+        · exact ⟨o, hy, rfl, rfl⟩
+      obtain ⟨o0, h0, e2, e3⟩ := hy0
+      obtain ⟨qb, hqb, hqk, hqm⟩ := h1 y o0 q h0 (e2 ▸ hpp)
+      by_cases e4 : q = t
+      · subst e4; exact ⟨_, by simp; exact hqb, hqk, e3 ▸ hqm⟩
+      · simp only [e4, if_false]
+        by_cases e5 : p = q
+        · subst e5; rw [hpb] at hqb; cases hqb
+          refine ⟨_, by simp [hpb]; rfl, hqk, ?_⟩
+          rcases hqm with h | h
+          · left; cases isRef tb <;> simp [hmem, e1, h]
+          · right; exact e3 ▸ h
+        · simp only [e5, if_false]; exact ⟨qb, hqb, hqk, e3 ▸ hqm⟩
+  · intro y o c hy hc
+    rw [hg] at hy; rw [hg]
+    by_cases e1 : y = t
+    · subst e1; simp only [if_true, Option.some.injEq] at hy; subst hy
+      obtain ⟨co, hco, hcp, hcpe⟩ := h2 _ _ c ht hc
+      have : c ≠ y := by
+        intro e; subst e; rw [ht] at hco; cases hco; rw [hp] at hcp; cases hcp; exact hself' rfl
+      simp only [this, if_false]
+      by_cases e5 : p = c
+      · subst e5; rw [hpb] at hco; cases hco; exact ⟨_, by simp, hcp, hcpe⟩
+      · simp only [e5, if_false]; exact ⟨co, hco, hcp, hcpe⟩
+    · simp only [e1, if_false] at hy
+      by_cases e2 : p = y
+      · subst e2
+        simp only [if_true, hpb, Option.map_some, Option.some.injEq] at hy; subst hy
+        have hc' : c = t ∨ (c ≠ t ∧ c ∈ pb.children) := by
+          cases hir : isRef tb <;> simp [hir, hmem] at hc <;> tauto
+        rcases hc' with rfl | ⟨hct, hcm⟩
+        · exact ⟨tb, by simp, hp, hnp⟩
+        · obtain ⟨co, hco, hcp, hcpe⟩ := h2 p pb c hpb hcm
+          simp only [hct, if_false]
+          by_cases e5 : p = c
+          · subst e5; rw [hpb] at hco; cases hco; exact ⟨_, by simp [hpb]; rfl, hcp, hcpe⟩
+          · simp only [e5, if_false]; exact ⟨co, hco, hcp, hcpe⟩
+      · simp only [e2, if_false] at hy
+        obtain ⟨co, hco, hcp, hcpe⟩ := h2 y o c hy hc
+        by_cases e4 : c = t
+        · subst e4; rw [ht] at hco; cases hco; rw [hp] at hcp; cases hcp; exact absurd rfl e2
+        · simp only [e4, if_false]
+          by_cases e5 : p = c
+          · subst e5; rw [hpb] at hco; cases hco; exact ⟨_, by simp [hpb]; rfl, hcp, hcpe⟩
+          · simp only [e5, if_false]; exact ⟨co, hco, hcp, hcpe⟩
+  · intro y o hy
+    rw [hg] at hy
+    by_cases e1 : y = t
+    · subst e1; simp only [if_true, Option.some.injEq] at hy; subst hy; exact h3 _ _ ht
+    · simp only [e1, if_false] at hy
+      by_cases e2 : p = y
+      · subst e2
+        simp only [if_true, hpb, Option.map_some, Option.some.injEq] at hy; subst hy
+        have hne : t ∉ pb.children.erase t := fun h => ((hmem t).1 h).1 rfl
+        cases isRef tb
+        · simp only [Bool.false_eq_true, if_false]
+          exact List.Nodup.append (hnd.erase t) (List.nodup_singleton t) (by simpa using hne)
+        · simp only [if_true]; exact List.nodup_cons.2 ⟨hne, hnd.erase t⟩
+      · simp only [e2, if_false] at hy; exact h3 y o hy
+  · intro y o r hy hc; rw [hg] at hy; rw [hg]; grind
+  · intro y o hy; rw [hg] at hy; grind
+  · intro y o r hy hc; rw [hg] at hy; rw [hg]; grind
+  · intro y o hy hc; rw [hg] at hy; grind
+  · intro y o hy hc; rw [hg] at hy; grind
+  · intro y o hy
+    simp only [hk']
+    rw [hg] at hy
+    by_cases e1 : y = t
+    · subst e1; simp only [if_true, Option.some.injEq] at hy; subst hy; exact h9 _ _ ht
+    · simp only [e1, if_false] at hy
+      by_cases e2 : p = y
+      · subst e2
+        simp only [if_true, hpb, Option.map_some, Option.some.injEq] at hy; subst hy
+        have hp9 := (h9 p pb hpb).sublist (List.erase_sublist (a := t))
+        cases hir : isRef tb with
+        | true =>
+          simp only [if_true]
+          refine List.Pairwise.cons ?_ hp9
+          intro b _ ⟨ao, ha1, ha2⟩
+          rw [ht] at ha1; cases ha1
+          simp [isRef, ha2] at hir
+        | false =>
+          simp only [Bool.false_eq_true, if_false]
+          rw [List.pairwise_append]
+          refine ⟨hp9, List.pairwise_singleton _ _, ?_⟩
+          intro a _ b hb _
+          simp only [List.mem_singleton] at hb; subst hb
+          refine ⟨tb, ht, ?_⟩
+          cases hkk : tb.kind with
+          | plain => rfl
+          | limit => exact absurd hkk hk
+          | ref tt => simp [isRef, hkk] at hir
+      · simp only [e2, if_false] at hy; exact h9 y o hy
+  · intro n hn
+    rw [nullCtx_moveS] at hn
+    obtain ⟨nb, hb1, hb2, hb3, hb4, hb5⟩ := h10 n hn
+    rw [hg]; grind
+
+theorem moveS_same_ranked {rk : Nat → Nat} {s : State} {t : Nat} {tb : Obj} (wr : Ranked rk s)
+    (ht : s.get t = some tb) (p : Nat) (front : Bool) (hp : tb.parent = some p) (hself' : p ≠ t) :
+    Ranked rk (moveS s t (some p) front) := by
+  refine wr.mono (nullCtx_moveS _ _ _ _) ?_
+  intro j o' hj
+  rw [moveS_same_get ht p front hp hself'] at hj
+  by_cases e1 : j = t
+  · subst e1; simp only [if_true, Option.some.injEq] at hj; subst hj; exact ⟨_, ht, rfl, rfl⟩
+  · simp only [e1, if_false] at hj
+    split at hj
+    · obtain ⟨o0, h0, rfl⟩ := Option.map_eq_some_iff.1 hj; exact ⟨o0, h0, rfl, rfl⟩
+    · exact ⟨o', hj, rfl, rfl⟩
+
+theorem moveS_ranked {rk : Nat → Nat} {s : State} {t : Nat} {tb : Obj} (wr : Ranked rk s)
+    (ht : s.get t = some tb) (tnew : Option Id) (front : Bool)
+    (hne : tnew ≠ tb.parent) (hself : tnew ≠ some t) (hself' : tb.parent ≠ some t)
+    (hrk : ∀ q, tnew = some q → rk q < rk t ∧ ∀ tt, tb.kind = .ref tt → rk q < rk tt) :
+    Ranked rk (moveS s t tnew front) := by
+  have ⟨h1, h2, h3⟩ := wr
+  have hg := moveS_get ht tnew front hne hself hself'
+  have hcase : ∀ (y : Nat) o, (moveS s t tnew front).get y = some o →
+      (y = t ∧ o.parent = tnew ∧ o.kind = tb.kind) ∨
+      (y ≠ t ∧ ∃ o0, s.get y = some o0 ∧ o0.parent = o.parent ∧ o0.kind = o.kind) := by
+    intro y o hy
+    rw [hg] at hy
+    by_cases e1 : y = t
+    · left; subst e1; simp only [if_true, Option.some.injEq] at hy; subst hy; exact ⟨rfl, rfl, rfl⟩
+    · right
+      simp only [e1, if_false] at hy
+      refine ⟨e1, ?_⟩
+      split at hy
+      · obtain ⟨o0, h0, rfl⟩ := Option.map_eq_some_iff.1 hy; exact ⟨o0, h0, rfl, rfl⟩
+      · split at hy
+        · obtain ⟨o0, h0, rfl⟩ := Option.map_eq_some_iff.1 hy; exact ⟨o0, h0, rfl, rfl⟩
+        · exact ⟨o, hy, rfl, rfl⟩
+  constructor
+  · intro y o p hy hpp
+    rcases hcase y o hy with ⟨rfl, e2, -⟩ | ⟨-, o0, h0, e2, -⟩
+    · exact (hrk p (e2 ▸ hpp)).1
+    · exact h1 y o0 p h0 (e2 ▸ hpp)
+  · intro y o tt q hy hk hqq
+    rcases hcase y o hy with ⟨rfl, e2, e3⟩ | ⟨-, o0, h0, e2, e3⟩
+    · exact (hrk q (e2 ▸ hqq)).2 tt (e3 ▸ hk)
+    · exact h2 y o0 tt q h0 (e3 ▸ hk) (e2 ▸ hqq)
+  · intro n y o hn hy hne
+    rw [nullCtx_moveS] at hn
+    rcases hcase y o hy with ⟨rfl, -, -⟩ | ⟨-, o0, h0, -, -⟩
+    · exact h3 n _ tb hn ht hne
+    · exact h3 n y o0 hn h0 hne
+
+/-! ### congruence of the structural updates under `ShapeEq` -/
+
+theorem shapeEq_modify {a b : State} (h : ShapeEq a b) (i : Nat) (f : Obj → Obj)
+    (hf : ∀ x y : Obj, x.shape = y.shape → (f x).shape = (f y).shape) :
+    ShapeEq (a.modify i f) (b.modify i f) := by
+  refine ⟨by simpa using h.1, fun j => ?_⟩
+  simp only [get_modify]
+  have := h.2 j
+  by_cases hij : i = j
+  · simp only [hij, if_true]
+    cases ha : a.get j <;> cases hb : b.get j <;> rw [ha, hb] at this <;> simp at this ⊢
+    exact hf _ _ this
+  · simpa [hij] using this
+
+theorem shapeEq_remove {a b : State} (h : ShapeEq a b) (i : Nat) : ShapeEq (a.remove i) (b.remove i) := by
+  refine ⟨by simpa using h.1, fun j => ?_⟩
+  simp only [get_remove]
+  by_cases hij : i = j
+  · simp [hij]
+  · simpa [hij] using h.2 j
+
+theorem shapeEq_detach {a b : State} (h : ShapeEq a b) (t : Nat) : ShapeEq (detach a t) (detach b t) := by
+  unfold detach
+  cases ha : a.get t with
+  | none =>
+    have := h.2 t; rw [ha] at this
+    cases hb : b.get t with
+    | none => exact h
+    | some bo => rw [hb] at this; simp at this
+  | some ao =>
+    obtain ⟨bo, hb, e1, -⟩ := h.get ha
+    simp only [hb, e1]
+    cases ao.parent with
+    | none => exact h
+    | some p =>
+      exact shapeEq_modify h p _ (by
+        intro x y hxy; simp only [Obj.shape, Prod.mk.injEq] at hxy ⊢
+        obtain ⟨e1, e2, e3, e4, e5, e6⟩ := hxy
+        exact ⟨e1, by rw [e2], e3, e4, e5, e6⟩)
+
+theorem shapeEq_freeLeafS {a b : State} (h : ShapeEq a b) (r : Nat) :
+    ShapeEq (freeLeafS a r) (freeLeafS b r) := by
+  unfold freeLeafS
+  cases ha : a.get r with
+  | none =>
+    have := h.2 r; rw [ha] at this
+    cases hb : b.get r with
+    | none => exact h
+    | some bo => rw [hb] at this; simp at this
+  | some ao =>
+    obtain ⟨bo, hb, -, -, -, e4, -, -⟩ := h.get ha
+    simp only [hb, e4]
+    apply shapeEq_remove
+    apply shapeEq_detach
+    cases ao.kind with
+    | plain => exact h
+    | limit => exact h
+    | ref t =>
+      exact shapeEq_modify h t _ (by
+        intro x y hxy; simp only [Obj.shape, Prod.mk.injEq] at hxy ⊢
+        obtain ⟨e1, e2, e3, e4, e5, e6⟩ := hxy
+        exact ⟨e1, e2, by rw [e3], e4, e5, e6⟩)
 
 end Usual.C01
